@@ -182,6 +182,9 @@ impl RunOutcome {
         }
     }
     pub fn violate(&mut self, class: &str, signature: &str, detail: String) {
+        if self.violations.len() >= 4 {
+            return;
+        }
         self.violations.push(Violation {
             class: class.to_string(),
             signature: signature.to_string(),
